@@ -228,6 +228,14 @@ func (b *Bind) handleMultipleAsigntment(
 
 	leftTs := p.GetLastEvaluatedTPointer().([]*base.T)
 
+	// a target that did not evaluate to a type still takes part in the
+	// assignment
+	for idx, leftT := range leftTs {
+		if leftT == nil {
+			leftTs[idx] = base.MakeUnknown()
+		}
+	}
+
 	nextT, err := p.Read()
 	if err != nil {
 		return err
